@@ -170,6 +170,7 @@ def metric(name, y_true, y_pred, horizon_weight=None, multioutput="uniform_avera
         v, clamped = _ratio(num, den, multioutput, square_root)
         if info is not None:
             info["clamped"] = clamped
+            info["den"] = list(den)
         return v
     if name in RELATIVE:
         B = columns(y_pred_benchmark)
